@@ -191,9 +191,10 @@ Section Dense.
   Definition norm_ninf (m : dm T) : option T := fold1 (omin K) (map K.(oabs) (values m)).
   Definition norm_p (m : dm T) (p : T) : T :=
     opow (fold_left (fun acc x => acc + opow (K.(oabs) x) p) (values m) zero) (one / p).
-  (* DenseMatrix's own max_diff (overrides the trait default; no shape test) *)
+  (* DenseMatrix's own max_diff (overrides the trait default; panics on operands of different shape) *)
   Definition max_diff (a b : dm T) : option T :=
-    if length (values b) <? length (values a) then None
+    if negb ((nrows a =? nrows b) && (ncols a =? ncols b)) then None
+    else if length (values b) <? length (values a) then None
     else Some (fold_left (fun acc i => omax K acc (K.(oabs) (nth i (values a) zero - nth i (values b) zero)))
                          (seq O (length (values a))) zero).
   Definition column_mean (m : dm T) : list T :=
